@@ -176,8 +176,25 @@ impl Incremental {
             self.miss.insert(path.src.clone());
             return false;
         };
-        // Loaded now while `entry` is borrowed; replayed only on success.
-        let diag_bytes = self.store.load_diagnostics(entry);
+        // Decoded now while `entry` is borrowed; replayed only on success. A
+        // diagnostics blob that is recorded but unreadable is a miss like a
+        // damaged fragment: restoring without it would silently drop warnings.
+        let diagnostics = match (&entry.diagnostics, self.store.load_diagnostics(entry)) {
+            (None, _) => Vec::new(),
+            (Some(_), Some(x)) => match fragment_cache::restore_diagnostics(&x) {
+                Ok(x) => x,
+                Err(x) => {
+                    debug!("Failed to restore diagnostics ({src}): {x}");
+                    self.miss.insert(path.src.clone());
+                    return false;
+                }
+            },
+            (Some(_), None) => {
+                debug!("Failed to load diagnostics ({src})");
+                self.miss.insert(path.src.clone());
+                return false;
+            }
+        };
         let Ok(fragment) = Fragment::from_bytes(&bytes) else {
             debug!("Failed to decode fragment ({src})");
             self.miss.insert(path.src.clone());
@@ -194,12 +211,7 @@ impl Incremental {
                 self.store.keep(&src);
                 self.restored += 1;
                 self.inputs.remove(&path.src);
-                if let Some(diag_bytes) = diag_bytes {
-                    match fragment_cache::restore_diagnostics(&diag_bytes) {
-                        Ok(diags) => self.restored_diagnostics.extend(diags),
-                        Err(x) => debug!("Failed to restore diagnostics ({src}): {x}"),
-                    }
-                }
+                self.restored_diagnostics.extend(diagnostics);
                 true
             }
             Err(x) => {
